@@ -58,33 +58,67 @@ class NotPoly(Exception):
     pass
 
 
-def z3_to_poly(e, limit=20000):
-    n = None
+def _r_add(a, b, sign=1):
+    (an, ad), (bn, bd) = a, b
+    if ad == bd:
+        return p_add(an, bn, sign), ad
+    return p_add(p_mul(an, bd), p_mul(bn, ad), sign), p_mul(ad, bd)
+
+
+def _r_mul(a, b):
+    return p_mul(a[0], b[0]), p_mul(a[1], b[1])
+
+
+ONE = {(): Fraction(1)}
+
+
+def z3_to_rat(e, quot, cache, limit=6000):
+    """z3 real term -> (numerator poly, denominator poly); quotient variables q (q*d = n, d != 0)
+    are replaced by n/d"""
+    i = e.get_id()
+    if i in cache:
+        return cache[i]
+    r = _z3_to_rat(e, quot, cache, limit)
+    if len(r[0]) > limit or len(r[1]) > limit:
+        raise NotPoly("too large")
+    cache[i] = r
+    return r
+
+
+def _z3_to_rat(e, quot, cache, limit):
     if z3.is_rational_value(e):
-        return p_const(Fraction(e.numerator_as_long(), e.denominator_as_long()))
+        return p_const(Fraction(e.numerator_as_long(), e.denominator_as_long())), ONE
     if z3.is_int_value(e):
-        return p_const(e.as_long())
+        return p_const(e.as_long()), ONE
     if z3.is_const(e) and e.decl().kind() == z3.Z3_OP_UNINTERPRETED and e.sort() == z3.RealSort():
-        return p_var(e.decl().name())
+        name = e.decl().name()
+        if name in quot:
+            n, d = quot[name]
+            (nn, nd), (dn, dd) = z3_to_rat(n, quot, cache, limit), z3_to_rat(d, quot, cache, limit)
+            return p_mul(nn, dd), p_mul(nd, dn)
+        return p_var(name), ONE
     k = e.decl().kind() if z3.is_app(e) else None
+    rec = lambda x: z3_to_rat(x, quot, cache, limit)
     if k == z3.Z3_OP_ADD:
-        acc = {}
-        for c in e.children():
-            acc = p_add(acc, z3_to_poly(c))
+        ch = e.children()
+        acc = rec(ch[0])
+        for c in ch[1:]:
+            acc = _r_add(acc, rec(c))
         return acc
     if k == z3.Z3_OP_SUB:
         ch = e.children()
-        acc = z3_to_poly(ch[0])
+        acc = rec(ch[0])
         for c in ch[1:]:
-            acc = p_add(acc, z3_to_poly(c), -1)
+            acc = _r_add(acc, rec(c), -1)
         return acc
     if k == z3.Z3_OP_UMINUS:
-        return p_add({}, z3_to_poly(e.arg(0)), -1)
+        n, d = rec(e.arg(0))
+        return p_add({}, n, -1), d
     if k == z3.Z3_OP_MUL:
-        acc = p_const(1)
+        acc = (ONE, ONE)
         for c in e.children():
-            acc = p_mul(acc, z3_to_poly(c))
-            if len(acc) > limit:
+            acc = _r_mul(acc, rec(c))
+            if len(acc[0]) > limit:
                 raise NotPoly("too large")
         return acc
     if k == z3.Z3_OP_POWER:
@@ -92,31 +126,64 @@ def z3_to_poly(e, limit=20000):
         if z3.is_int_value(x) or (z3.is_rational_value(x) and x.denominator_as_long() == 1):
             nexp = x.as_long() if z3.is_int_value(x) else x.numerator_as_long()
             if nexp >= 0:
-                acc = p_const(1)
-                base = z3_to_poly(b)
+                acc = (ONE, ONE)
+                base = rec(b)
                 for _ in range(nexp):
-                    acc = p_mul(acc, base)
+                    acc = _r_mul(acc, base)
                 return acc
     raise NotPoly(str(e)[:60])
 
 
+def _is_real_eq(h):
+    return z3.is_app(h) and h.decl().kind() == z3.Z3_OP_EQ and h.arg(0).sort() == z3.RealSort()
+
+
+def _quotients(hyps):
+    """q -> (n, d) for hypotheses  q*d == n  (q a fresh quotient variable) accompanied by d != 0"""
+    nonzero = set()
+    for h in hyps:
+        if z3.is_app(h) and h.decl().kind() == z3.Z3_OP_DISTINCT and h.num_args() == 2:
+            if z3.is_rational_value(h.arg(1)) and h.arg(1).numerator_as_long() == 0:
+                nonzero.add(h.arg(0).get_id())
+        if z3.is_app(h) and h.decl().kind() == z3.Z3_OP_NOT and _is_real_eq(h.arg(0)):
+            e = h.arg(0)
+            if z3.is_rational_value(e.arg(1)) and e.arg(1).numerator_as_long() == 0:
+                nonzero.add(e.arg(0).get_id())
+    quot = {}
+    for h in hyps:
+        if not _is_real_eq(h):
+            continue
+        l, r = h.arg(0), h.arg(1)
+        if z3.is_app_of(l, z3.Z3_OP_MUL) and l.num_args() == 2:
+            q, d = l.arg(0), l.arg(1)
+            if z3.is_const(q) and q.decl().kind() == z3.Z3_OP_UNINTERPRETED and q.decl().name().startswith("q!") \
+                    and d.get_id() in nonzero and q.decl().name() not in quot:
+                quot[q.decl().name()] = (r, d)
+    return quot
+
+
 def payload(hyps, goal):
-    """serialisable polynomial system, or None if the goal is not a polynomial equality"""
-    try:
-        if not (z3.is_app(goal) and goal.decl().kind() == z3.Z3_OP_EQ and goal.arg(0).sort() == z3.RealSort()):
-            return None
-        g = p_add(z3_to_poly(goal.arg(0)), z3_to_poly(goal.arg(1)), -1)
-    except NotPoly:
+    """serialisable polynomial system, or None if the goal is not a polynomial equality.
+    Quotients are eliminated (goal and hypotheses are cleared of denominators; sound because
+    every denominator is accompanied by its `!= 0` hypothesis)."""
+    if not _is_real_eq(goal):
         return None
+    quot = _quotients(hyps)
+    cache = {}
+    try:
+        gn, gd = _r_add(z3_to_rat(goal.arg(0), quot, cache), z3_to_rat(goal.arg(1), quot, cache), -1)
+    except (NotPoly, RecursionError):
+        return None
+    g = gn
     hs = []
     for h in hyps:
-        if z3.is_app(h) and h.decl().kind() == z3.Z3_OP_EQ and h.arg(0).sort() == z3.RealSort():
+        if _is_real_eq(h):
             try:
-                p = p_add(z3_to_poly(h.arg(0)), z3_to_poly(h.arg(1)), -1)
-            except NotPoly:
+                pn, pd = _r_add(z3_to_rat(h.arg(0), quot, cache), z3_to_rat(h.arg(1), quot, cache), -1)
+            except (NotPoly, RecursionError):
                 continue
-            if p and p not in hs:
-                hs.append(p)
+            if pn and pn not in hs:
+                hs.append(pn)
     if not g:
         return {"goal": [], "hyps": []}
     return {"goal": _ser(g), "hyps": [_ser(h) for h in hs]}
